@@ -47,6 +47,11 @@ impl Decode for $T {
     //@fn prim.$T.skip.default :: codec | pub trait Decode:Sized | skip
     //@ default-for codec | impl Decode for $T
 }
+//@lemma prim.$T.type_info props=C01,C02,C06,C16
+/// the fake-specialisation tag of `$T` names `$T` (the bulk paths of slices, arrays and vectors dispatch on it)
+pub proof fn type_info_$T()
+    ensures <$T as Encode>::TYPE_INFO == TypeInfo::$TI, <$T as Decode>::TYPE_INFO == TypeInfo::$TI,
+{}
 } // mod prim_$T
 '''
 
@@ -80,6 +85,10 @@ impl Decode for $T {
     //@fn prim.$T.skip.default :: codec | pub trait Decode:Sized | skip
     //@ default-for codec | impl Decode for $T
 }
+//@lemma prim.$T.type_info props=C01,C02,C06,C16
+pub proof fn type_info_$T()
+    ensures <$T as Encode>::TYPE_INFO == TypeInfo::$TI, <$T as Decode>::TYPE_INFO == TypeInfo::$TI,
+{}
 } // mod prim_$T
 '''
 
@@ -127,7 +136,32 @@ def inst(tmpl, t, n, ti):
     return out.replace('$T', t)
 
 
+def type_info_closure(src):
+    """The assumed contracts of the bulk (transmuting) paths -- encode_slice_no_len, decode_vec_with_len, the array
+    fast paths -- are sound only if TYPE_INFO differs from Unknown for the 12 primitives alone.  Enumerate every
+    `const TYPE_INFO` of the expansion: one outside the registered primitive impls loses that closure (undecided)."""
+    import re
+    from extract import LostAnchor
+    allowed = set()
+    for t in [x[0] for x in INTS] + [x[0] for x in BYTES] + ['f32', 'f64']:
+        allowed.add('impl Encode for %s' % t)
+        allowed.add('impl Decode for %s' % t)
+    bad = []
+    for it in src.impls(r'\b(Encode|Decode) for'):
+        m = re.search(r'const\s+TYPE_INFO\s*:\s*TypeInfo\s*=\s*([^;]*);', it.text)
+        if not m or it.header in allowed:
+            continue
+        if re.sub(r'\s', '', m.group(1)) in ('TypeInfo::Unknown', 'crate::codec::TypeInfo::Unknown'):
+            continue
+        bad.append('%s { const TYPE_INFO = %s }' % (it.header, m.group(1).strip()))
+    if bad:
+        raise LostAnchor('TYPE_INFO is declared outside the 12 registered primitive impls: %s -- the assumed contracts of the '
+                         'transmuting bulk paths (encode_slice_no_len, decode_vec_with_len, array fast paths) no longer cover '
+                         'the code' % '; '.join(bad))
+
+
 def template(src, flags):
+    type_info_closure(src)
     parts = ['// ===== fixed-width integers (generated from verus/30_prims.py) =====\n',
              '']
     for t, n, ti in INTS:
